@@ -132,6 +132,11 @@ func C02(tier string) int {
 		for _, slot := range []uint64{0, 1} {
 			ops2 = append(ops2, SOp{Kind: "msign-prop-first", Ents: []Ent{{Key: k, Slot: slot, Root: 2}, {Key: 1 - k}}},
 				SOp{Kind: "msign-prop-last", Ents: []Ent{{Key: k, Slot: slot, Root: 2}, {Key: 1 - k}}})
+			if k == 0 {
+				// ... and with the 64 bytes of (header root, domain) cut after byte 36 and after byte 28.
+				ops2 = append(ops2, SOp{Kind: "msign-prop-split36", Ents: []Ent{{Key: k, Slot: slot, Root: 2}, {Key: 1 - k}}},
+					SOp{Kind: "msign-prop-split28", Ents: []Ent{{Key: k, Slot: slot, Root: 2}, {Key: 1 - k}}})
+			}
 		}
 		// The same proposals asked of a second instance started on the same storage directory.
 		for _, slot := range []uint64{0, 1} {
